@@ -577,6 +577,7 @@ nodesLoop:
 			var positionOfDefault *ast.Position
 			var positionOfNil *ast.Position
 			positionOf := map[reflect.Type]*ast.Position{}
+			switchType := t.Type
 			for _, cas := range node.Cases {
 				tc.scopes.Enter(cas)
 				tc.addToAncestors(cas)
@@ -598,6 +599,9 @@ nodesLoop:
 					}
 					if !t.IsType() {
 						panic(tc.errorf(cas, "%v (type %s) is not a type", expr, t.StringWithNumber(true)))
+					}
+					if t.Type.Kind() != reflect.Interface && !types.Implements(t.Type, switchType) {
+						panic(tc.errorf(cas, "impossible type switch case: %s (type %s) cannot have dynamic type %s", ta.Expr, switchType, t.Type))
 					}
 					if name != "" && len(cas.Expressions) == 1 {
 						ti := &typeInfo{Type: t.Type, Properties: propertyAddressable}
